@@ -1,5 +1,5 @@
 import sys, json, time, collections, importlib
-sys.path.insert(0,'/repo'); sys.path.insert(0,'/verif')
+import os; sys.path.insert(0, os.environ.get('RSIM_REPO','/repo')); sys.path.insert(0,'/verif')
 import casadi, rockit
 from rsim import runner
 mod=importlib.import_module('rsim.'+sys.argv[1])
